@@ -9,3 +9,4 @@ pub mod ingress;
 pub mod bmp;
 pub mod rib;
 pub mod bgp;
+pub mod mrt;
